@@ -72,9 +72,8 @@ func decodeListFn(v []interface{}, l ListBuilder) {
 			list := &listBuilderImpl{}
 			decodeListFn(item.([]interface{}), list)
 			l.Append(list)
-		case reflect.Float32, reflect.Float64, reflect.String, reflect.Bool,
-			reflect.Int, reflect.Int8, reflect.Int16, reflect.Int32, reflect.Int64,
-			reflect.Uint, reflect.Uint8, reflect.Uint16, reflect.Uint32, reflect.Uint64:
+		default:
+			// scalars and any other value (e.g. time.Time) are kept as leaf
 			l.Append(decodeLeafFn(item))
 		}
 	}
@@ -92,9 +91,8 @@ func decodeContainerFn(current *map[string]interface{}, parent ContainerBuilder)
 				decodeContainerFn(&ref, parent.AddContainer(k))
 			case reflect.Slice, reflect.Array:
 				decodeListFn(v.([]interface{}), parent.AddList(k))
-			case reflect.Float32, reflect.Float64, reflect.String, reflect.Bool,
-				reflect.Int, reflect.Int8, reflect.Int16, reflect.Int32, reflect.Int64,
-				reflect.Uint, reflect.Uint8, reflect.Uint16, reflect.Uint32, reflect.Uint64:
+			default:
+				// scalars and any other value (e.g. time.Time) are kept as leaf
 				parent.AddValue(k, decodeLeafFn(v))
 			}
 		}
